@@ -453,6 +453,60 @@ func c10Internal(k backends.Kind) []disc {
 	return ds
 }
 
+// c10PrefixBuckets: buckets whose names are string prefixes of one another ("bk0", "bk00", "bk0-x", "bk0.yyy")
+// are as independent as any others: deleting one (empty, or with the force-delete header) leaves the
+// objects and metadata of the others alone.
+func c10PrefixBuckets(k backends.Kind, force bool) (ds []disc) {
+	st := backends.Must(k, backends.Options{})
+	defer st.Close()
+	names := []string{"bk0", "bk00", "bk0-x", "bk0.yyy"}
+	for _, b := range names {
+		if err := ensureBucket(st, b); err != nil {
+			panic(err)
+		}
+	}
+	for _, b := range names[1:] {
+		for _, key := range []string{"a", "d/x"} {
+			if r := put(st, b, key, []byte("object "+b+"/"+key), "X-Amz-Meta-Owner", b, "Content-Type", "text/x-"+b); r.Status != 200 {
+				panic("harness: " + r.String())
+			}
+		}
+	}
+	rq := &s3x.Req{Method: "DELETE", Path: "/bk0"}
+	if force {
+		put(st, "bk0", "a", []byte("to be force-deleted"))
+		put(st, "bk0", "d/x", []byte("to be force-deleted"))
+		rq.Header = s3x.H("X-Minio-Force-Delete", "true")
+	}
+	// (the force variant is a Minio extension outside the listed properties: the server removes the
+	// bucket and then answers NoSuchBucket from the ordinary delete that follows; only its effect on
+	// the other buckets is judged here)
+	if r := s3x.Do(st.Handler, rq); r.Panic != "" || (!force && r.Status != 204) {
+		return dsc("bucket-delete-failed", "backend=%s force=%v: DELETE /bk0 answered %s", k, force, r)
+	}
+	for _, b := range names[1:] {
+		for _, key := range []string{"a", "d/x"} {
+			g := get(st, b, key)
+			if g.Status != 200 || string(g.Body) != "object "+b+"/"+key || g.Header.Get("X-Amz-Meta-Owner") != b || g.Header.Get("Content-Type") != "text/x-"+b {
+				ds = append(ds, dsc("other-bucket-changed", "backend=%s force=%v: after deleting bucket bk0, GET %s/%s answers %d %q (X-Amz-Meta-Owner %q, Content-Type %q)", k, force, b, key, g.Status, trunc(g.Body, 40), g.Header.Get("X-Amz-Meta-Owner"), g.Header.Get("Content-Type"))...)
+			}
+		}
+		doc, r := listDoc(st, b)
+		if doc == nil || len(doc.Contents) != 2 {
+			ds = append(ds, dsc("other-bucket-listing-changed", "backend=%s force=%v: after deleting bucket bk0, listing %s answers %s", k, force, b, r)...)
+		}
+	}
+	var bd s3x.BucketsDoc
+	lb := s3x.Do(st.Handler, &s3x.Req{Method: "GET", Path: "/"})
+	lb.XML(&bd)
+	got := bd.Names()
+	sort.Strings(got)
+	if fmt.Sprint(got) != "[bk0-x bk0.yyy bk00]" {
+		ds = append(ds, dsc("bucket-set-changed", "backend=%s force=%v: after deleting bucket bk0, ListBuckets shows %v", k, force, got)...)
+	}
+	return ds
+}
+
 func c10Replay(check string, raw json.RawMessage) ([]disc, error) {
 	var cs c10Case
 	if err := json.Unmarshal(raw, &cs); err != nil {
@@ -463,6 +517,8 @@ func c10Replay(check string, raw json.RawMessage) ([]disc, error) {
 		return c10Distinct(cs.Backend, cs.Ops[0].Key, cs.Ops[1].Key), nil
 	case "internal":
 		return c10Internal(cs.Backend), nil
+	case "prefix-buckets":
+		return c10PrefixBuckets(cs.Backend, len(cs.Ops) > 0 && cs.Ops[0].K == "force"), nil
 	}
 	ds, _ := c10Exec(cs)
 	return ds, nil
@@ -553,6 +609,18 @@ func c10Run(t *testing.T, c *evid.Collector) {
 		}
 	}
 	if evid.Shard() == 0 {
+		for _, k := range kinds {
+			if k.IsSingle() {
+				continue
+			}
+			for _, force := range []bool{false, true} {
+				cs := c10Case{Backend: k}
+				if force {
+					cs.Ops = []c10Op{{K: "force", B: "bk0"}}
+				}
+				record("prefix-buckets", cs, c10PrefixBuckets(k, force), 1, "fixed")
+			}
+		}
 		for _, k := range kinds {
 			ds := c10Internal(k)
 			record("internal", c10Case{Backend: k}, ds, 1, "internal-names")
